@@ -51,6 +51,11 @@ class Run:
         self.flows = sorted({w[1] for w in spec["wl"]})
         self.samples = []       # (step, now, id(packet_in_service) or None)
         self.pkts = lab.inject(self.entry, spec["wl"])
+        # creation time is not arrival time: packets may have been on a wire for a while (no scheduler may rely on packet.time)
+        for i, p in enumerate(self.pkts):
+            ages = spec.get("ages")
+            if ages:
+                p.time = p.time - ages[i % len(ages)]
         self.late = {id(p): w[4] for p, w in zip(self.pkts, spec["wl"])}
         self._start_step = None
         lab.after_step.append(self._after_step)
